@@ -742,6 +742,23 @@ func workerMain() {
 		o := execute(j.p, refVariant, pr.wireF)
 		lines[i] = fmt.Sprintf("%s|%s|%s|%s|%s", j.p.id(), seqName(j.seq), pr.wireF.Hash.Hex(), o.digest(), o.Err)
 	})
+	cjobs := enumerateChains(chainPrestates(), 2)
+	clines := make([]string, len(cjobs))
+	par.For(int64(len(cjobs)), 1, nil, func(i int64) {
+		j := cjobs[i]
+		bc := buildChain(j)
+		if bc.err != "" {
+			clines[i] = fmt.Sprintf("chain:%s|%s|proposer-error|%s", j.p.id(), chainName(j.blocks), bc.err)
+			return
+		}
+		var hs, ds []string
+		for k, o := range runChain(j.p, bc.wires, refChainVariant) {
+			hs = append(hs, bc.wires[k].Hash.Hex())
+			ds = append(ds, o.digest())
+		}
+		clines[i] = fmt.Sprintf("chain:%s|%s|%s|%s|", j.p.id(), chainName(j.blocks), strings.Join(hs, ","), strings.Join(ds, ","))
+	})
+	lines = append(lines, clines...)
 	f, err := os.Create(*workerOut)
 	if err != nil {
 		fatal(err)
@@ -959,6 +976,14 @@ func main() {
 		for i, j := range jobs {
 			idxOf[j.p.id()+"|"+seqName(j.seq)] = i
 		}
+		// the workers run the 2-block chains; in the thorough tier the parent's chains have 3 blocks: compare with the
+		// parent's chain whose first two blocks are the worker's and whose last block is empty
+		cidxOf := map[string]int{}
+		for i, j := range cjobs {
+			if len(j.blocks) == 2 || len(j.blocks[2]) == 0 {
+				cidxOf[j.p.id()+"|"+chainName(j.blocks[:2])] = i
+			}
+		}
 		compared := 0
 		for k, w := range workers {
 			err := w.cmd.Wait()
@@ -970,6 +995,38 @@ func main() {
 			for _, line := range strings.Split(strings.TrimSpace(string(b)), "\n") {
 				f := strings.SplitN(line, "|", 5)
 				if len(f) < 4 {
+					continue
+				}
+				if strings.HasPrefix(f[0], "chain:") {
+					ci, ok := cidxOf[strings.TrimPrefix(f[0], "chain:")+"|"+f[1]]
+					if !ok || cresults[ci] == nil || cresults[ci].built == nil || len(cresults[ci].ref) < 2 {
+						continue
+					}
+					cj := cjobs[ci]
+					var hs, ds []string
+					for k := 0; k < 2; k++ {
+						hs = append(hs, cresults[ci].built.wires[k].Hash.Hex())
+						ds = append(ds, cresults[ci].ref[k].digest())
+					}
+					var field, a, b string
+					switch {
+					case f[2] == "proposer-error":
+						field, a, b = "proposal-failed", "", f[3]
+					case f[2] != strings.Join(hs, ","):
+						field, a, b = "enumerated-block-hash", strings.Join(hs, ","), f[2]
+					case f[3] != strings.Join(ds, ","):
+						field, a, b = "result-digest", strings.Join(ds, ","), f[3]
+					}
+					compared++
+					if field != "" {
+						var nm [][]string
+						for _, bl := range cj.blocks[:2] {
+							nm = append(nm, strings.Split(seqName(bl), ","))
+						}
+						cresults[ci].findings = append(cresults[ci].findings, finding{axis: "process", field: field, seqLen: 200, idx: ci,
+							what: fmt.Sprintf("the chain [%s] executed in another process of the same binary gives a different %s: %s vs %s", cj.describe(1), field, a, b),
+							cid:  caseID{Sub: "chain", Kind: cj.p.Kind, Pre: cj.p.Name, Chain: nm, Seq: []string{chainName(cj.blocks[:2])}, Axis: "process", Field: field, RefValue: a, GotValue: b}})
+					}
 					continue
 				}
 				i, ok := idxOf[f[0]+"|"+f[1]]
@@ -1144,6 +1201,14 @@ func replay() {
 	var c caseID
 	if err := r.LoadReplay(&c); err != nil {
 		fatal("cannot load replay:", err)
+	}
+	if c.Sub == "chain" {
+		if replayChain(c) {
+			fmt.Printf("VIOLATION property=C06 replay=%s\n", r.ReplayPath)
+			os.Exit(1)
+		}
+		fmt.Println("no oracle fails on this case")
+		os.Exit(0)
 	}
 	pres := buildPrestates([]string{c.Kind})
 	var p *prestate
